@@ -1,11 +1,11 @@
 (* Extraction for the C17 correspondence driver: ExtrOcamlBasic only; nat/positive/N/Z stay
    extracted inductives. *)
 From Coq Require Import Extraction ExtrOcamlBasic NArith ZArith List.
-From RsddV Require Import Base.Bdd Model.Compile Model.CnfUtil Model.Serialize.
+From RsddV Require Import Base.Bdd Model.Compile Model.CnfUtil Model.Serialize Model.SerializeText.
 Extraction Language OCaml.
 Extraction "../ocaml/C17/model.ml"
   cnf_new clauses to_dimacs header lex_ints parse_dimacs parse_dimacs_tokens cnf_from_dimacs expr_from_dimacs
-  expr_table
+  expr_table to_dimacs_text lex_chars
   unique_variables sorted_names variable_mapping map_get from_sexpr
   bdd_serialize eval_table unfold_table rows_ordered
   sdd_serialize eval_xtable xrows_ordered
